@@ -99,6 +99,19 @@ class InvalidCacheError(Exception):
     pass
 
 
+def _relative_library_folders(model_folder: str, library_folders):
+    # Library folders are compared relative to the model folder, so that a
+    # cache that is moved together with its sources stays valid.
+    folders = []
+    for folder in library_folders:
+        try:
+            folders.append(os.path.relpath(os.path.abspath(folder), os.path.abspath(model_folder)))
+        except ValueError:
+            # E.g. a different drive on Windows
+            folders.append(os.path.abspath(folder))
+    return folders
+
+
 def _compile_model(model_folder: str, model_name: str, compiler_options: Dict[str, str]):
     # Importing the antlr4 (generated modules) is rather slow. Avoid for this
     # ~100 ms startup overhead for cached models by importing only when
@@ -227,6 +240,9 @@ def save_model(
         db["library_os"] = os.name
 
         db["options"] = compiler_options
+        db["library_folders"] = _relative_library_folders(
+            model_folder, compiler_options["library_folders"]
+        )
 
         # Describe variables per category
         for key in ["states", "der_states", "alg_states", "inputs", "parameters", "constants"]:
@@ -341,6 +357,11 @@ def load_model(model_folder: str, model_name: str, compiler_options: Dict[str, s
 
         if old_opts != new_opts:
             raise InvalidCacheError("Cache generated for different compiler options")
+
+        if db.get("library_folders") != _relative_library_folders(
+            model_folder, compiler_options["library_folders"]
+        ):
+            raise InvalidCacheError("Cache generated for different library folders")
 
         # Pickles are platform independent, but dynamic libraries are not
         if compiler_options["codegen"]:
